@@ -47,6 +47,13 @@ def check_fn(ctx, crate, fn, clause, tyof=None, expected_min=0):
     if b is None: return 0
     eng = Engine(crate)
     sites = {}
+    ret_edges = []     # (frame path, returned value, facts) on every edge into a Return block
+    def eh(body, s_, t_, st, fk):
+        if t_ != "return" and body.blocks[t_]["term"]["k"] == "return":
+            ret_edges.append((body.path, fk, st.store.get((fk, 0)), st.facts))
+        elif t_ == "return":
+            ret_edges.append((body.path, fk, st.store.get((fk, 0)), st.facts))
+    eng.edge_hook = eh
     def vh(v, loc, facts):
         z = find_chain(v)
         if z is not None:
@@ -82,7 +89,30 @@ def check_fn(ctx, crate, fn, clause, tyof=None, expected_min=0):
                 if (v in sub or sub & derived) and (sub & zl):
                     checked = (d, bloc); break
         ok = bounded or checked is not None
-        if bounded: why = "operand %s ∈ [%d, %d] < 2^52: conversion to f64 is exact" % (show(z), iv[0], iv[1])
+        # every path on which the function holding the chain RETURNS a value derived from the raw
+        # estimate must either have the operand bounded (under the facts of that path) or have gone
+        # through the integer check (a fact of either polarity on a comparison involving the
+        # estimate and a source leaf of the operand)
+        unchecked_path = None
+        if ok and not bounded:
+            for rpath, rfk, rval, rfacts in ret_edges:
+                if rpath != path or rval is None: continue
+                sub = set(walk(rval))
+                if not (v in sub or (sub & derived)): continue
+                iv2 = Intervals(eng.phi_ops, rfacts, tyof or tyof_default).ival(z)
+                if iv2 is not None and 0 <= iv2[0] and iv2[1] < (1 << 52): continue
+                went = False
+                for f in rfacts:
+                    if f[0] in ('b', 'tested') and f[1][0] == 'op' and f[1][1] in CMP:
+                        fs = set(walk(f[1]))
+                        if (v in fs or fs & derived) and (fs & zl): went = True; break
+                if not went:
+                    unchecked_path = (show(rval)[:80], iv2); break
+            if unchecked_path is not None: ok = False
+        if unchecked_path is not None:
+            why = ("on a returning path the float estimate %s is handed back without the integer correction while the operand is only bounded by %s (>= 2^52: the f64 conversion is inexact there)"
+                   % (unchecked_path[0], "2^%d" % unchecked_path[1][1].bit_length() if unchecked_path[1] else "its type"))
+        elif bounded: why = "operand %s ∈ [%d, %d] < 2^52: conversion to f64 is exact" % (show(z), iv[0], iv[1])
         elif checked: why = "float estimate is checked against the integer operand by `%s` (%s)" % (show(checked[0]), checked[1][2])
         else: why = ("inexact integer square root: `%s` (up to %s) is converted to f64 (53-bit mantissa), square-rooted and truncated, and the result is used as an exact ring index without any integer correction"
                      % (show(z), "2^%d" % (iv[1].bit_length()) if iv else "unknown"))
